@@ -177,6 +177,44 @@ and sx_of_stat (b : Buffer.t) (s : stat) : unit =
   | SLocalFunction (k, ps, dots, bl) ->
     p ("(localfunc " ^ nm k ^ " "); sx_of_func b false ps dots bl; p ")"
 
+(* statement trees from s-expressions (generator format) *)
+let rec block_of_sx (x : sx) : block =
+  match x with
+  | L (A "block" :: items) ->
+    let rec go = function
+      | [] -> BNil None
+      | [L (A "return" :: es)] -> BNil (Some (List.map exp_of_sx es))
+      | s :: rest -> BCons (stat_of_sx s, go rest) in
+    go items
+  | _ -> failwith "bad block"
+and stat_of_sx (x : sx) : stat =
+  let names l = List.map (function A k -> nn k | _ -> failwith "bad name") l in
+  match x with
+  | L [A "empty"] -> SEmpty | L [A "break"] -> SBreak
+  | L [A "goto"; A k] -> SGoto (nn k) | L [A "label"; A k] -> SLabel (nn k)
+  | L [A "do"; b] -> SDo (block_of_sx b)
+  | L [A "while"; c; b] -> SWhile (exp_of_sx c, block_of_sx b)
+  | L [A "repeat"; b; c] -> SRepeat (block_of_sx b, exp_of_sx c)
+  | L (A "if" :: c :: b :: rest) ->
+    let rec go = function
+      | [] -> IEnd
+      | [L [A "else"; b]] -> IElse (block_of_sx b)
+      | L [A "elseif"; c; b] :: r -> IElseIf (exp_of_sx c, block_of_sx b, go r)
+      | _ -> failwith "bad if" in
+    SIf (exp_of_sx c, block_of_sx b, go rest)
+  | L [A "fornum"; A v; e1; e2; e3; b] ->
+    SForNum (nn v, exp_of_sx e1, exp_of_sx e2, (match e3 with A "-" -> None | e -> Some (exp_of_sx e)), block_of_sx b)
+  | L [A "forin"; L vs; L es; b] -> SForIn (names vs, List.map exp_of_sx es, block_of_sx b)
+  | L (A "local" :: L vs :: es) ->
+    SLocal (List.map (function L [A k; A a] -> (nn k, (match a with "1" -> AConst | "2" -> AClose | _ -> ANone)) | _ -> failwith "bad attname") vs,
+            List.map exp_of_sx es)
+  | L (A "assign" :: L vs :: es) -> SAssign (List.map exp_of_sx vs, List.map exp_of_sx es)
+  | L [A "callstat"; e] -> SCall (exp_of_sx e)
+  | L [A "funcstat"; L path; A m; L ps; A dots; b] ->
+    SFunction (names path, (if m = "-" then None else Some (nn m)), names ps, bb dots, block_of_sx b)
+  | L [A "localfunc"; A k; L ps; A dots; b] -> SLocalFunction (nn k, names ps, bb dots, block_of_sx b)
+  | _ -> failwith "bad stat"
+
 let show_res (n : int) (r : exp res) : string =
   match r with
   | Ok e -> "ok " ^ show_exp e
@@ -215,6 +253,13 @@ let () =
         | Err rest -> "err " ^ string_of_int (n - List.length rest)
         | Unsupported -> "unsupported"
         | OutOfFuel -> "oof"))
+    | id :: "RS" :: _ ->
+      (* StatPrint.print_chunk / wf_block on a statement tree, and the theorem parse_chunk (print_chunk b) = Ok b re-evaluated *)
+      let i = String.index_from line (String.length id + 1) ' ' in
+      let bl = block_of_sx (parse_sx (String.sub line (i + 1) (String.length line - i - 1))) in
+      let ts = print_chunk bl in
+      let self = (match parse_chunk ts with Ok b2 -> if b2 = bl then "same" else "different" | Err _ -> "err" | Unsupported -> "unsupported" | OutOfFuel -> "oof") in
+      print_endline (String.concat " @@ " [ id ^ " " ^ String.concat " " (List.map string_of_tok ts); b2s (wf_block bl); self ])
     | id :: "R" :: _ ->
       let i = String.index_from line (String.length id + 1) ' ' in
       let e = exp_of_sx (parse_sx (String.sub line (i + 1) (String.length line - i - 1))) in
